@@ -106,6 +106,12 @@ func (t *taskState) runOp(k int) (res string) {
 		return fmt.Sprintf("%x %v", b, err)
 	case 1:
 		enc, _ := tglib.GetUplinkNASTransport(int64(r.Intn(1<<30)), int64(r.Intn(1<<30)), r.Bytes(r.Range(3, 60)))
+		switch r.Intn(6) { // error paths run concurrently too: a truncated or damaged message
+		case 0:
+			enc = enc[:r.Range(1, len(enc)-1)]
+		case 1:
+			enc[r.Intn(len(enc))] ^= 1 << uint(r.Intn(8))
+		}
 		pdu, err := ngap.Decoder(enc)
 		if err != nil {
 			return "ERR " + err.Error()
@@ -118,6 +124,9 @@ func (t *taskState) runOp(k int) (res string) {
 		return hex.EncodeToString(nasTestpacket.GetRegistrationRequest(nasMessage.RegistrationType5GSInitialRegistration, id, nil, ue.GetUESecurityCapability(), nil, nil, nil))
 	case 3:
 		p := plainUL(r)
+		if r.Intn(6) == 0 && len(p) > 3 {
+			p = p[:r.Range(2, len(p)-1)] // a truncated message: the decoder's error path
+		}
 		m := nas.NewMessage()
 		cp := append([]byte{}, p...)
 		if err := m.PlainNasDecode(&cp); err != nil {
